@@ -9,7 +9,7 @@ BASELINE = ("cd /repo && (cargo nextest run --workspace --no-fail-fast --tool-co
 CHECKS = {
  "C19": ("exploration",
          "grammar-based property testing with an independent AST evaluator as oracle (proptest expressions + an exhaustive three-operand space + literal corpus + token soup + pathological inputs with a counting allocator)",
-         "750 k random expression ASTs (numbers with separators / exponents, pi / tau / inf / nan, + - * /, unary signs, parentheses, deg()/rad(), sexagesimal, !degrees / !radians tags, random blanks) rendered to text and compared bit for bit with an evaluator that never parses text; all 62208 three-operand expressions over 6 operands x 4 operators^2 x 3 parenthesisations x 3 tags x 2 targets; 96 k expressions with one documented error; a 96-spelling literal corpus plus 960 k random literals (option on == option off, f32 and f64, incl. f32 rounding midpoints); token soup and raw bytes for totality on a 1 MiB stack; pathological nests / digit runs / sign chains to 2e6 with allocation-count work bounds. Exploration.",
+         "750 k random expression ASTs (numbers with separators / exponents, pi / tau / inf / nan, + - * /, unary signs, parentheses, deg()/rad(), sexagesimal, !degrees / !radians tags, random blanks) rendered to text and compared bit for bit with an evaluator that never parses text; all 62208 three-operand expressions over 6 operands x 4 operators^2 x 3 parenthesisations x 3 tags x 2 targets; every sexagesimal seconds field SS.f / SS.ff / SS.fff (quick: every third) - one decimal literal, bit for bit; 96 k expressions with one documented error; a 96-spelling literal corpus plus 960 k random literals (option on == option off, f32 and f64, incl. f32 rounding midpoints); token soup and raw bytes for totality on a 1 MiB stack; pathological nests / digit runs / sign chains to 2e6 with allocation-count work bounds. Exploration.",
          "where module docs and README disagree (untagged sexagesimal) both readings are accepted; nested unit functions, unknown tags, >1000 digits per token and 256-299 nesting levels are Free; linear work is checked on allocator calls and bytes, not time",
          "DESIGN.md section 3 C19; notes/report-C19.md"),
  "C01": ("exploration",
@@ -19,17 +19,17 @@ CHECKS = {
          "DESIGN.md section 3 C01"),
  "C16": ("exploration",
          "property-based testing with renderer ground truth: documents rendered by the harness with recorded line / column / char / byte positions of every node; a generic Spanned tree and provoked type errors are compared with them; a consistency predicate re-derives every reported Location from the text",
-         "Random decorated documents (all scalar styles, multi-byte text, anchors / aliases to scalars and containers, block and flow) under layouts with a multi-byte first line, LF / CRLF / lone CR, comments, markers and indentation 2-4: both locations of every node of a generic Spanned<tree> are internally consistent and name the renderer's position (alias use site / anchored definition site), single-line scalar byte ranges equal the written token, a non-integer planted at every scalar leaf of an all-integer typed tree is reported at that leaf (or as the definition site under an alias); 3 fixed documents x every leaf x 586 layouts exhaustively; fixed merge documents for merge use / definition sites. Exploration.",
+         "Random decorated documents (all scalar styles, multi-byte text, anchors / aliases to scalars and containers, block and flow) under layouts with a multi-byte first line, LF / CRLF / lone CR, comments, markers and indentation 2-4: both locations of every node of a generic Spanned<tree> are internally consistent and name the renderer's position (alias use site / anchored definition site), single-line scalar byte ranges equal the written token, a non-integer planted at every scalar leaf of an all-integer typed tree is reported at that leaf (or as the definition site under an alias); 3 fixed documents x every leaf x 586 layouts exhaustively; fixed merge documents for merge use / definition sites; enum payloads in tagged and mapping notation read directly and through an alias. Exploration.",
          "below mapping keys and inside replayed content only the definition site of plain nodes is judged (the property speaks of values reached through an alias); block scalars only for consistency; one open finding in the parser dependency (span of a quoted scalar includes trailing blanks / comment) excludes quoted scalars under comment layouts",
          "DESIGN.md section 3 C16"),
  "C14": ("exploration",
          "model-based property testing over generated object-graph descriptions (exhaustive small DAG shapes + proptest graphs); oracle = pointer-equality partition before vs after the round trip, predicted anchor / alias token sequence, tree expansion for plain mirror types",
-         "All strong DAG shapes with <= 4 allocations x 4 variants, all weak-edge subsets for <= 2 allocations, every single weak edge for 3, random graphs with <= 10 allocations and <= 25 occurrences over Rc and Arc anchors with shared string leaves, weak edges to live and dropped targets and recursive links (self loop, parent pointer, rings), in sequence / map / nested-struct / Option positions under several serializer option vectors: the partition of wrapper occurrences by pointer equality, payloads, weak upgrade / dangling, link walks and re-serialised text are preserved; each shared class is defined once and aliased elsewhere; plain and mixed mirror types get equal independent copies. Exploration.",
-         "weak edges are only generated when the strong occurrence is complete earlier (documented precondition); compact_list_indent, empty_as_braces=false and indent_step=1 are outside the domain (C13 findings); one open finding (anchor lost on a block-scalar string - its repair is blocked by a test that pins the anchor-less output) is excluded by signature",
+         "All strong DAG shapes with <= 4 allocations x 4 variants, all weak-edge subsets for <= 2 allocations, every single weak edge for 3, random graphs with <= 10 allocations and <= 25 occurrences over Rc and Arc anchors with shared string leaves, weak edges to live and dropped targets and recursive links (self loop, parent pointer, rings, dangling), in sequence / map / nested-struct / Option positions under several serializer option vectors (indentation, compact_list_indent, quoting, tags, anchor names): the partition of wrapper occurrences by pointer equality, payloads, weak upgrade / dangling, link walks and re-serialised text are preserved; each shared class is defined once and aliased elsewhere; plain and mixed mirror types get equal independent copies. Exploration.",
+         "weak edges are only generated when the strong occurrence is complete earlier (documented precondition); empty_as_braces=false and indent_step=1 are outside the domain (C13 findings); one open finding (anchor lost on a block-scalar string - its repair is blocked by a test that pins the anchor-less output) is excluded by signature",
          "DESIGN.md section 3 C14; notes/report-C14.md"),
  "C15": ("exploration",
-         "stateful property-based testing: exhaustive call histories up to length 3 (4 over a core alphabet) + random histories to length 12 over 53 call kinds, every history on a fresh thread; oracle = each call's observation equals the same call alone on a fresh thread",
-         "Histories over 24 base calls (successful / failing mid-anchored-node / failing inside an anchor context / budget and alias limit at the exact limit / shared RcAnchors / missing- and unknown-field errors / root static error / caught panic / duplicate key / multi-document / reader / abandoned and exhausted iterators / serialisation with anchors and into a failing writer / validated parse) and 25 nested calls (a parse inside the Deserialize impl of a field of an outer document with anchors before / around / inside): every observation (variant, locations, rendered message, pointer classes - never addresses) equals the isolated one; isolated observations agree across two fresh threads and contain documented constants. All 120099 histories of length <= 3 and 614656 of length 4 over a core alphabet are enumerated.",
+         "stateful property-based testing: exhaustive call histories up to length 3 (4 over a core alphabet) + random histories to length 12 over 54 call kinds, every history on a fresh thread; oracle = each call's observation equals the same call alone on a fresh thread",
+         "Histories over 26 base calls (successful / failing mid-anchored-node / failing inside an anchor context / budget and alias limit at the exact limit / shared RcAnchors / missing- and unknown-field errors / root static error / caught panic / duplicate key / multi-document / reader / abandoned and exhausted iterators / serialisation with anchors and into a failing writer / garde-validated parse / validator-crate parse with six failing fields) and 25 nested calls (a parse inside the Deserialize impl of a field of an outer document with anchors before / around / inside): every observation (variant, locations, rendered message, pointer classes - never addresses) equals the isolated one; isolated observations agree across two fresh threads and contain documented constants. All 120099 histories of length <= 3 and 614656 of length 4 over a core alphabet are enumerated.",
          "observations are compared as strings built from variant, locations, messages and pointer-equality classes; Debug of validation errors (HashMap order) is not used",
          "DESIGN.md section 3 C15; notes/report-C15.md"),
  "C05": ("exploration",
@@ -49,18 +49,18 @@ CHECKS = {
          "DESIGN.md section 3 C06; notes/report-C06.md"),
  "C09": ("exploration",
          "differential property-based testing across entry points: exhaustive read-partitions of short multi-byte token strings + schedule family over a corpus + proptest documents; pointer-range oracle for borrowing",
-         "All 2^(n-1) partitions of 3853 short token strings containing multi-byte characters (147362 document/schedule pairs), a 51-document corpus x schedule family (1 byte, fixed k, random, adversarial splits inside characters / CRLF / indicators) x 6 targets x 7 option vectors, random valid and mutated documents: from_str, from_slice, with_deserializer_* and from_reader under every schedule must agree on the value, or on error variant + line + column; a leading BOM is ignored by all; &str targets succeed exactly when the scalar is verbatim in the input (returned slices lie inside the input buffer), Cow targets equal owned, reader entry points never call visit_borrowed_str. Exploration, exhaustive for the short-string partitions.",
+         "All 2^(n-1) partitions of 3853 short token strings containing multi-byte characters (147362 document/schedule pairs), a 51-document corpus x schedule family (1 byte, fixed k, random, adversarial splits inside characters / CRLF / indicators) x 6 targets x 7 option vectors, random valid and mutated documents: from_str, from_slice, with_deserializer_* and from_reader under every schedule must agree on the value, or on error variant + line + column; a leading BOM is ignored by all; &str targets succeed exactly when the scalar is verbatim in the input (returned slices lie inside the input buffer), Cow targets equal owned, what the owned target rejects (a scalar tagged !!int) the borrowed one rejects too and tagged scalars (!!str ~, !!binary) give the same text, reader entry points never call visit_borrowed_str. Exploration, exhaustive for the short-string partitions.",
          "byte offsets are not compared (documented absent for readers); lending of block scalars is not fixed by the docs; two open findings in the parser dependency (tag handle without suffix, column after a multi-byte comment at EOF) and the reader '%' hang (C01) are excluded by construction",
          "DESIGN.md section 3 C09; notes/report-C09.md"),
  "C10": ("fault_enumeration",
          "fault enumeration: every byte position / every read call / every write call x error kinds x post-fault behaviour x chunkings x entry points over crafted documents whose prefixes are complete documents; oracle = fault-free result F",
-         "About 80 crafted and 1300 enumerated documents x every fault position and every k-th read x 6 error kinds x sticky / clean-EOF x 3 chunkings x from_reader, with_deserializer_from_reader, read and the validating twins; EOF inside every multi-byte character; input caps around the length incl. endless readers (bytes pulled <= cap + 16 KiB); writers failing at every call / accepted byte count with short writes over 60 values x 11 option vectors. If the faulting call was made the result must be an error (iterator: prefix of F then an error), else equal F; the writer returns the injected kind and what it accepted is a prefix of the fault-free output. Every single-fault position of the listed documents is enumerated.",
+         "About 80 crafted and 1300 enumerated documents x every fault position and every k-th read x 6 error kinds x sticky / clean-EOF x 3 chunkings x from_reader, with_deserializer_from_reader, read and the validating twins; EOF inside every multi-byte character; input caps around the length incl. endless readers (bytes pulled <= cap + 16 KiB); writers failing at every call (permanently or only once) / accepted byte count with short writes over 60 values x 11 option vectors. If the faulting call was made the result must be an error (iterator: the Ok items are a prefix of F's, an error is yielded, and the result is not a proper prefix of F - documents silently missing), else equal F; the writer returns the injected kind and what it accepted is a prefix of the fault-free output. Every single-fault position of the listed documents is enumerated.",
          "Interrupted is not injected (the property excludes it); which error variant a reader returns is not judged; caps within 3 bytes of the length on BOM inputs are not judged; the instrumented reader panics with a sentinel after 10000 polls past its end so that a spin becomes a failure, not a hang",
          "DESIGN.md section 3 C10; notes/report-C10.md"),
  "C17": ("exploration",
          "property-based testing of rendered reports with a layout parser as oracle: exhaustive cube around the error column + generated failing (input, target) pairs x renderers (Display, render_with_options x formatters x SnippetMode, miette handlers)",
-         "2365 reflecting documents (escapes, raw controls, wide and bidi text reflected through unknown field / variant, duplicate key, invalid type, custom messages, tags, validation paths, alias errors), an exhaustive cube of 15840 cases (character class x prefix x suffix x radius x context shape) around the error column, 10-20 k character lines, inputs beyond the 3 KiB reader window, two-window alias reports, token soup and mutated seeds; for every rendering: no panic, no C0 (except newline / tab) / DEL / C1, at most 5 consecutive source lines within [L-2, L+2] containing L, each shown line a fragment of the input line with that number, cropping within the documented radius, caret under the reported column (display columns). Exploration.",
-         "layout facts are taken from rustdoc / tests and self-checked against annotate-snippets at start-up; undocumented layout (lone CR, multi-line messages, implicit last empty line) is not judged; the harness' custom formatter / localizer is clean by construction",
+         "2365 reflecting documents (escapes, raw controls, wide and bidi text reflected through unknown field / variant, duplicate key, invalid type, custom messages, tags, validation paths, alias errors), an exhaustive cube of 15840 cases (character class x prefix x suffix x radius x context shape) around the error column, 10-20 k character lines, inputs beyond the 3 KiB reader window, two-window alias reports (also with the definition site beyond column 65535), token soup and mutated seeds; for every rendering: no panic, no C0 (except newline / tab) / DEL / C1, at most 5 consecutive source lines within [L-2, L+2] containing L, each shown line a fragment of the input line with that number, cropping within the documented radius, caret under the reported column (display columns). Exploration.",
+         "layout facts are taken from rustdoc / tests and self-checked against annotate-snippets at start-up; undocumented layout (lone CR, multi-line messages, implicit last empty line) is not judged; the harness' custom formatter / localizer is clean by construction; miette's own graphical handler is not run on lines longer than 60000 bytes (third-party formatting-width panic); open findings: marker in a trimmed margin, lone-CR line breaks, second window taken from a region cropped around the first location (lines over 4 KiB; keyed on the failure so that panics on those cases still count)",
          "DESIGN.md section 3 C17; notes/report-C17.md"),
  "C13": ("exploration",
          "property-based round trip over run-time type descriptions (proptest) + exhaustive small trees; oracle = one well-formed document and equality after a run-time-schema DeserializeSeed",
@@ -74,17 +74,17 @@ CHECKS = {
          "DESIGN.md section 3 C08"),
  "C18": ("exploration",
          "model-based property testing with harness-rendered documents and ground-truth positions; exhaustive single/double violated-leaf enumeration + proptest documents/streams; recording Localizer as observation channel",
-         "A fixed family of garde+validator types; documents rendered by the harness with every leaf supplied directly / through aliases / through merges; all 21 leaves x 6 supplies x 7 entry points x 2 crates x 3 styles with one violated leaf, all 210 leaf pairs, random documents and streams: validated entry points == plain ones when nothing is violated; otherwise the reported path set equals the harness-evaluated constraint set, each path's use site / definition site equal the renderer's ground truth (observed through a recording Localizer and Error::locations()), every failing document of a stream is reported. Exploration over enumerated and sampled documents.",
+         "A fixed family of garde+validator types; documents rendered by the harness with every leaf supplied directly / through aliases / through merges; all 21 leaves x 6 supplies x 7 entry points x 2 crates x 3 styles with one violated leaf, all 210 leaf pairs, random documents and streams: validated entry points == plain ones when nothing is violated; otherwise the reported path set equals the harness-evaluated constraint set, each path's use site / definition site equal the renderer's ground truth (observed through a recording Localizer and Error::locations()), every failing document of a stream is reported; a 260 MiB stream of valid documents gives the same items through read and the validating iterators. Exploration over enumerated and sampled documents.",
          "trusts the harness' renderer positions and constraint evaluator (cross-checked against the crates' own validate()); use site of values through merges / aliased mappings and locations of validator map entries are not fixed by the docs and only safety-checked",
          "DESIGN.md section 3 C18; notes/report-C18.md"),
  "C07": ("exploration",
          "reference-model property-based testing: an independent counter over raw saphyr-parser events plus a replay model gives the usage U; limits U_c / U_c-1 probe threshold exactness; exhaustive prefix histories for per-document enforcement",
-         "For generated streams (anchors, aliases to containers, nested replay, merges) and a fixed enumeration of small documents: report == independent count, check_yaml_budget == raw count, every limit set to the usage is accepted and usage-1 is rejected with the matching breach at the first exceeding raw event, budgets >= usage never reject, ratio heuristic exact at its boundary; all prefix histories of length <= 3 (thorough 4) over 7 document kinds x 4 final documents x 7 lowered limits for per-document independence of the streaming iterator. Exploration over generated inputs and enumerated histories.",
+         "For generated streams (anchors, aliases to containers, nested replay, merges) and a fixed enumeration of small documents: report == independent count, check_yaml_budget == raw count, every limit set to the usage is accepted and usage-1 is rejected with the matching breach at the first exceeding raw event, budgets >= usage never reject, ratio heuristic exact at its boundary; all prefix histories of length <= 3 (thorough 4) over 7 document kinds x 4 final documents x (exact budget, 7 lowered limits, 7 single limits) for per-document independence of the streaming iterator, and the alias/anchor ratio at its boundary for a document alone, after a prefix and before a following document; a breach met during alias replay must still be Error::Budget. Exploration over generated inputs and enumerated histories.",
          "trusts the harness' usage model (DESIGN.md Appendix B, written from the Budget rustdoc); breach location is judged only for raw (non-replayed) events; whether the document-start event belongs to the per-document event count is not judged",
          "DESIGN.md section 3 C07, Appendix B"),
  "C11": ("exploration",
          "model-based property testing: exhaustive sequences over 14 document kinds (length <= 3 / 4) + proptest longer streams; oracle = per-document results composed by a stream model",
-         "All sequences of length <= 3 (thorough 4) over 14 document kinds with rotating text variants, end markers, trailing comments and CRLF, and random streams up to 8 documents, for an untyped and a typed target; batch (str, slice), the streaming iterator under three read chunkings, and the single-document entry points are compared with a model composed from each document parsed alone (skip empty/null, stop at syntax error, continue after type error, len+2 termination bound, anchors not visible across documents). Exploration over the enumerated space.",
+         "All sequences of length <= 3 (thorough 4) over 18 document kinds (incl. empty strings, `!!str null`, bare names of unit and payload enum variants) with rotating text variants, end markers, trailing comments, CRLF and 0-2 leading byte order marks, and random streams up to 8 documents, for untyped, map, String and enum targets; batch (str, slice), the streaming iterator under three read chunkings, and the single-document entry points are compared with a model composed from each document parsed alone (skip empty/null, stop at syntax error, continue after type error, len+2 termination bound, anchors not visible across documents). Exploration over the enumerated space.",
          "documents are classified by construction (contains a syntax error / empty); behaviour after a document that aliases an earlier document's anchor and trailing empty documents after single-document entry points are not judged",
          "DESIGN.md section 3 C11"),
  "C04": ("exploration",
@@ -99,7 +99,7 @@ CHECKS = {
          "DESIGN.md section 3 C03"),
  "C02": ("exploration",
          "metamorphic property-based testing: value(doc) == value(harness-computed alias-free expansion); exhaustive small trees x anchor/alias placements + proptest-generated decorated trees",
-         "Every tree with <= 5 (thorough 6) nodes x every placement of <= 2 anchors and <= 3 aliases in block and flow layout, plus random decorated trees, merge values through aliases and multi-document streams, for untyped, serde_json and shape-following typed targets; each document is compared with its alias-free, anchor-free expansion computed on the AST; unbound aliases must be rejected. Exploration: no counterexample in the enumerated space and the random sample.",
+         "Every tree with <= 5 (thorough 6) nodes x every placement of <= 2 anchors and <= 3 aliases in block and flow layout, plus random decorated trees, merge values through aliases, tagged and null-like / empty scalars (incl. an omitted node that carries only an anchor) anchored and aliased in value, item and key position, and multi-document streams, for untyped, serde_json and shape-following typed targets; each document is compared with its alias-free, anchor-free expansion computed on the AST; unbound aliases must be rejected. Exploration: no counterexample in the enumerated space and the random sample.",
          "trusts the harness' expander (YAML semantics: names bind at the anchor mark) and renderer; every rendered text is self-checked against the raw saphyr-parser event stream; recursive aliases (alias to a still-open node) are not judged",
          "DESIGN.md section 3 C02"),
  "C12": ("exploration",
